@@ -125,6 +125,7 @@ impl Reference {
                 l.extend(r);
                 l
             }
+            Combine::ZipCount => vec![Rec::new(1); l.len().min(r.len())],
             Combine::Zip => l
                 .iter()
                 .zip(r.iter())
@@ -448,7 +449,7 @@ pub fn static_replication(job: &JobSpec) -> BTreeMap<u32, Repl> {
             match c {
                 // forward inputs: the new block inherits the left side's requirements
                 Combine::Merge => l,
-                Combine::Zip => Repl::One,
+                Combine::Zip | Combine::ZipCount => Repl::One,
                 Combine::Join(_, JoinAlgo::BcHash | JoinAlgo::BcSortMerge, _) => l,
                 Combine::Join(..) => Repl::Unlimited,
             }
